@@ -83,6 +83,9 @@ type nodeWorld struct {
 	valSet      *tmtypes.ValidatorSet
 	valAddr     sdk.ValAddress
 	proposer    sdk.ConsAddress
+	val2Addr    sdk.ValAddress // a second genesis validator: the one that double-signs
+	val2Cons    []byte
+	val2Out     bool // jailed (no longer votes)
 	keys        []*ethsecp256k1.PrivKey
 	genesis     []byte
 	genesisTime time.Time
@@ -148,9 +151,18 @@ func newNodeWorld(seed int64) *nodeWorld {
 		panic(err)
 	}
 	validator := tmtypes.NewValidator(pub, 1)
-	w.valSet = tmtypes.NewValidatorSet([]*tmtypes.Validator{validator})
+	vs2 := sha256.Sum256([]byte(fmt.Sprintf("validator2/%d", seed)))
+	pv2 := mock.PV{PrivKey: &cosmosed25519.PrivKey{Key: ed25519.NewKeyFromSeed(vs2[:])}}
+	pub2, err := pv2.GetPubKey()
+	if err != nil {
+		panic(err)
+	}
+	validator2 := tmtypes.NewValidator(pub2, 1)
+	w.valSet = tmtypes.NewValidatorSet([]*tmtypes.Validator{validator, validator2})
 	w.proposer = sdk.ConsAddress(validator.Address)
 	w.valAddr = sdk.ValAddress(validator.Address)
+	w.val2Addr = sdk.ValAddress(validator2.Address)
+	w.val2Cons = validator2.Address
 	var accs []authtypes.GenesisAccount
 	var bals []banktypes.Balance
 	for i := 0; i < nodeKeys; i++ {
@@ -163,6 +175,18 @@ func newNodeWorld(seed int64) *nodeWorld {
 	tmp := nodeNewApp(dbm.NewMemDB())
 	cdc := tmp.AppCodec()
 	gs := app.GenesisStateWithValSet(tmp, app.NewDefaultGenesisState(), w.valSet, accs, bals...)
+	// (the helper funds the bonded pool for one validator only)
+	{
+		var bankGen banktypes.GenesisState
+		cdc.MustUnmarshalJSON(gs[banktypes.ModuleName], &bankGen)
+		pool := authtypes.NewModuleAddress(stakingtypes.BondedPoolName).String()
+		for i := range bankGen.Balances {
+			if bankGen.Balances[i].Address == pool {
+				bankGen.Balances[i].Coins = sdk.NewCoins(sdk.NewCoin(utils.BaseDenom, sdk.DefaultPowerReduction.MulRaw(int64(len(w.valSet.Validators)))))
+			}
+		}
+		gs[banktypes.ModuleName] = cdc.MustMarshalJSON(&bankGen)
+	}
 	evmGen := evmtypes.DefaultGenesisState()
 	evmGen.Params.ActivePrecompiles = without(evmtypes.AvailableEVMExtensions, nodeBech32Addr)
 	gs[evmtypes.ModuleName] = cdc.MustMarshalJSON(evmGen)
@@ -180,7 +204,9 @@ func newNodeWorld(seed int64) *nodeWorld {
 	}
 	slGen := slashingtypes.DefaultGenesisState()
 	slGen.SigningInfos = []slashingtypes.SigningInfo{{Address: w.proposer.String(),
-		ValidatorSigningInfo: slashingtypes.NewValidatorSigningInfo(w.proposer, 0, 0, time.Unix(0, 0).UTC(), false, 0)}}
+		ValidatorSigningInfo: slashingtypes.NewValidatorSigningInfo(w.proposer, 0, 0, time.Unix(0, 0).UTC(), false, 0)},
+		{Address: sdk.ConsAddress(w.val2Cons).String(),
+			ValidatorSigningInfo: slashingtypes.NewValidatorSigningInfo(sdk.ConsAddress(w.val2Cons), 0, 0, time.Unix(0, 0).UTC(), false, 0)}}
 	gs[slashingtypes.ModuleName] = cdc.MustMarshalJSON(slGen)
 	bz, err := json.MarshalIndent(gs, "", " ")
 	if err != nil {
@@ -200,6 +226,9 @@ type nodeBlock struct {
 	height int64
 	time   time.Time
 	txs    [][]byte
+	// the second validator voted on the previous block; this block carries evidence that it signed twice
+	val2Votes bool
+	evidence  bool
 }
 
 type nodeBlockResult struct {
@@ -228,8 +257,16 @@ func (w *nodeWorld) begin(a *app.Haqq, b nodeBlock) sdk.Context {
 	if th, err := tmtypes.HeaderFromProto(&header); err == nil {
 		hash = th.Hash()
 	}
-	a.BeginBlock(abci.RequestBeginBlock{Hash: hash, Header: header, LastCommitInfo: abci.CommitInfo{Votes: []abci.VoteInfo{{
-		Validator: abci.Validator{Address: w.valSet.Validators[0].Address, Power: 1}, SignedLastBlock: true}}}})
+	votes := []abci.VoteInfo{{Validator: abci.Validator{Address: w.proposer, Power: 1}, SignedLastBlock: true}}
+	if b.val2Votes {
+		votes = append(votes, abci.VoteInfo{Validator: abci.Validator{Address: w.val2Cons, Power: 1}, SignedLastBlock: true})
+	}
+	var ev []abci.Misbehavior
+	if b.evidence {
+		ev = []abci.Misbehavior{{Type: abci.MisbehaviorType_DUPLICATE_VOTE, Validator: abci.Validator{Address: w.val2Cons, Power: 1},
+			Height: b.height - 1, Time: b.time.Add(-time.Second), TotalVotingPower: 2}}
+	}
+	a.BeginBlock(abci.RequestBeginBlock{Hash: hash, Header: header, LastCommitInfo: abci.CommitInfo{Votes: votes}, ByzantineValidators: ev})
 	return a.BaseApp.NewContext(false, header)
 }
 
@@ -351,6 +388,12 @@ func (w *nodeWorld) buildTxs(a *app.Haqq, ctx sdk.Context, tok string) [][]byte 
 	case "eth":
 		to := w.freshAddr()
 		return [][]byte{w.ethTx(a, ctx, ki(1), &to, mustBig(f[2]), nil, 100_000, 0)}
+	case "mdeleg2":
+		return [][]byte{w.cosmosTx(a, ctx, ki(1), stakingtypes.NewMsgDelegate(w.acc(ki(1)), w.val2Addr, coin(f[2])[0]))}
+	case "mundeleg2":
+		return [][]byte{w.cosmosTx(a, ctx, ki(1), stakingtypes.NewMsgUndelegate(w.acc(ki(1)), w.val2Addr, coin(f[2])[0]))}
+	case "mredel2":
+		return [][]byte{w.cosmosTx(a, ctx, ki(1), stakingtypes.NewMsgBeginRedelegate(w.acc(ki(1)), w.val2Addr, w.valAddr, coin(f[2])[0]))}
 	case "ethm":
 		// an EVM value transfer to the hex form of a module account
 		to := common.BytesToAddress(authtypes.NewModuleAddress(f[2]).Bytes())
@@ -507,9 +550,15 @@ func nodeGen(r *rand.Rand, tier string, prop string) []Case {
 		c := Case{fmt.Sprintf("world # seed=%d", r.Intn(1_000_000))}
 		c = append(c, "blk # dt=6 txs=deploy.0|eth.1.5|bhdeploy.1")
 		c = append(c, "blk # dt=6 txs=fundpup.0.1000000000000000|approve.1|approve.2|mdeleg.3.100000000000000000|mdeleg.1.100000000000000000|mdeleg.2.100000000000000000")
-		c = append(c, "blk # dt=6 txs=vest.4.5.9000000000000000000000|codeless.2")
+		c = append(c, "blk # dt=6 txs=vest.4.5.9000000000000000000000|codeless.2|mdeleg2.1.300000000000000000|mdeleg2.3.200000000000000000")
 		var liqTo []int
 		swapAt := 2 + r.Intn(blocks-6)
+		// two worlds in three: the second validator is caught double-signing at some block (slashed, jailed, tombstoned;
+		// its delegations, unbonding entries and redelegations are slashed and the slashed coins redirected)
+		evidAt := -1
+		if r.Intn(3) > 0 {
+			evidAt = 4 + r.Intn(blocks-6)
+		}
 		swapped := "bech32" // the extension that is inactive
 		for b := 2; b < blocks; b++ {
 			var txs []string
@@ -559,7 +608,16 @@ func nodeGen(r *rand.Rand, tier string, prop string) []Case {
 				case x < 8:
 					txs = append(txs, fmt.Sprintf("deleg.%d.%d", k, 1000+r.Intn(1_000_000)))
 				case x < 9:
-					txs = append(txs, fmt.Sprintf("mdeleg.%d.%d", k, 1000+r.Intn(1_000_000)))
+					switch r.Intn(4) {
+					case 0:
+						txs = append(txs, fmt.Sprintf("mdeleg2.%d.%d", k, 1000+r.Intn(1_000_000)))
+					case 1:
+						txs = append(txs, fmt.Sprintf("mundeleg2.%d.%d", pick(r, []int{1, 3}), 1000+r.Intn(1_000_000)))
+					case 2:
+						txs = append(txs, fmt.Sprintf("mredel2.%d.%d", pick(r, []int{1, 3}), 1000+r.Intn(1_000_000)))
+					default:
+						txs = append(txs, fmt.Sprintf("mdeleg.%d.%d", k, 1000+r.Intn(1_000_000)))
+					}
 				case x < 10:
 					txs = append(txs, fmt.Sprintf("mundeleg.3.%d", 1000+r.Intn(1_000_000)))
 				case x < 11:
@@ -613,7 +671,11 @@ func nodeGen(r *rand.Rand, tier string, prop string) []Case {
 				txs = append(txs, fmt.Sprintf("govswap.%s.%s", other, swapped))
 				swapped = other
 			}
-			c = append(c, fmt.Sprintf("blk # dt=%d txs=%s", 4+r.Intn(5), strings.Join(txs, "|")))
+			ev := ""
+			if b == evidAt {
+				ev = " evid=1"
+			}
+			c = append(c, fmt.Sprintf("blk # dt=%d%s txs=%s", 4+r.Intn(5), ev, strings.Join(txs, "|")))
 			switch prop {
 			case "C20":
 				if r.Intn(3) == 0 || b == swapAt+2 || b == swapAt+3 {
@@ -699,7 +761,11 @@ func nodeExecHistory(c Case, afterBlock func(*nodeRun, int), atMark func(*nodeRu
 			} else {
 				prev = run.blocks[len(run.blocks)-1].time
 			}
-			b := nodeBlock{height: h, time: prev.Add(time.Duration(vmIdx(kv["dt"])) * time.Second)}
+			b := nodeBlock{height: h, time: prev.Add(time.Duration(vmIdx(kv["dt"])) * time.Second), val2Votes: !w.val2Out, evidence: kv["evid"] == "1" && !w.val2Out}
+			if b.evidence {
+				w.val2Out = true
+				tags = append(tags, "double-sign-evidence")
+			}
 			ctx := w.begin(a, b)
 			var res nodeBlockResult
 			deliver := func(bz []byte) abci.ResponseDeliverTx {
